@@ -219,3 +219,25 @@ PROPS['C12'] = {
     'assumptions': H_ASSUME + ['HeterEventQueue + MixinHeterFilter is not a configuration that compiles on this tree (PrototypeList is private in HeterEventQueueBase), and MixinHeterFilter only compiles for arguments whose lvalue type equals the filter prototype; neither is ranged over'],
     'bounds': {'quick': '<=3 filters, <=2 listeners, <=2 pending, depth 4-5', 'thorough': 'depth 6-7'},
 }
+
+E_ASSUME = ['finite input domain enumerated completely (no sampling); value alphabet and size range as stated in the rule', 'alignment above alignof(void*) is not part of the domain', 'ASan/UBSan are part of the oracle']
+PROPS['C17'] = {
+    'title': 'AnyData holds, moves and destroys its value like the value itself',
+    'level': 'exploration',
+    'engine': 'E',
+    'parts': [{'src': 'harness/anydata.cpp', 'prefix': 'C17/', 'variants': ['g17O0'], 'defs': ['VERIF_SUB=%d' % i]} for i in range(4)],
+    'rule': 'complete enumeration: AnyData<1>, <16>, <24>, <64> x payload kinds {trivial bytes: every size 1..capacity+17; tracked non-trivial (ledger): every size 5..capacity+17; move-only (unique_ptr + padding) and shared-ownership (shared_ptr + padding): every multiple of 8 up to capacity+24} x construction from lvalue / const lvalue / rvalue x move chains of length 0..3 x direct / round trip through EventQueue<int, void(const AnyData&)> (enqueue, process, recycled slot, clearEvents, destruction with a pending event); oracle: value equality through get<T>, T&, T*, getAddress stable, isType<U> over a list of 24 probe types incl. same-size other kinds, exactly one copy from lvalues and none on moves, ledger exactly-once destruction; a case is non-trivial and distinct per (capacity, kind, size, category, chain, route)',
+    'assumptions': E_ASSUME + ['takeEvent/peekEvent cannot be instantiated with AnyData arguments (no default constructor / assignment), so the queue round trip uses enqueue/process/processOne/clearEvents'],
+    'bounds': {'quick': 'all cases (compile-dominated)', 'thorough': 'same cases'},
+    'technique': 'bounded-exhaustive enumeration of the input space on the real code with sanitizers and a destruction ledger',
+}
+PROPS['C18'] = {
+    'title': 'AnyId keys are coherent: equality, ordering and hash agree',
+    'level': 'exploration',
+    'engine': 'E',
+    'parts': [{'src': 'harness/anyid.cpp', 'prefix': 'C18/', 'variants': ['g17O0'], 'quick_variants': ['g17O0']}, {'src': 'harness/anyid.cpp', 'prefix': 'C18/', 'variants': ['c17'], 'tier': 'thorough'}],
+    'rule': 'complete enumeration: 15 ids built from values of mixed types (int/long/char 0,1,2; strings "", "a", "b", "ab"; an enum; a second instance of an equal value) x digesters {std::hash, 1-bit digester (collisions between every pair of classes), constant digester} x storage {EmptyAnyStorage, value-storing with == and <}: all pairs and all triples for reflexivity, symmetry, transitivity of ==, irreflexivity/asymmetry/transitivity of <, transitivity of incomparability, incomparable <=> equal, equal => equal hash, value storage keeps colliding digests distinct, without storage equal <=> digest equal; every (a,b) through EventDispatcher with std::map and std::unordered_map (single key and all keys registered); distinct = distinct (configuration, ==, <, >, digest-equal) patterns observed',
+    'assumptions': E_ASSUME,
+    'bounds': {'quick': 'all pairs/triples, g++', 'thorough': 'same under g++ and clang++'},
+    'technique': 'bounded-exhaustive enumeration of all pairs and triples over a finite value alphabet on the real code',
+}
